@@ -6,6 +6,7 @@ from astlib import calls, find_fn, fns_in_file, last, method_calls, render, site
 from pathcond import conditions_to, enumerate_paths, fact_str, facts_str, find_path
 import reportflow
 import c03
+import dropflow
 
 TITLE = "No silent failure"
 LEVEL_TEXT = (
@@ -14,7 +15,8 @@ LEVEL_TEXT = (
     " desugaring drops are reported; definition tables do not overwrite silently; exit status derives from the displayed count."
 )
 NOT_DECIDED = "that a displayed error report describes the failure; that every definition of a parsed file is reached by the analysis loop beyond the user-input flag."
-TRUSTED = ["syn parser", "path-condition extractor (rules/pathcond.py)", "C04.5: every AST/IR node carries a file id (discharges the `if let Some(file_id)` idiom)"]
+ENGINE = "mirfacts+astq"
+TRUSTED = ["rustc MIR (engines/mirfacts) for C02.10", "syn parser", "path-condition extractor (rules/pathcond.py)", "C04.5: every AST/IR node carries a file id (discharges the `if let Some(file_id)` idiom)"]
 
 RUN = "program_analysis/src/analysis_runner.rs"
 INC = "parser/src/include_logic.rs"
@@ -576,4 +578,10 @@ def run(ctx):
     rule_desugar(ctx)
     rule_tables(ctx)
     c03.rule_exit_status(ctx, "C02.6")
+    dropflow.rule_consumed(ctx, "C02.10")
+    import c05
+    import c19
+
+    ctx.include("C02.11", "the comment stripper agrees with the reference lexer on every string - in particular it returns the `unterminated comment` error exactly when a block comment is never closed (shared with C05.1)", lambda c: c05.run(c), only=["preprocess/"])
+    ctx.include("C02.12", "a file named on the command line is a user input however it was first reached: user inputs are the set of canonical paths queued from the command line (shared with C19.1/C19.4) - otherwise its findings, including its errors, are filtered out as library findings", c19.rule_canonical, c19.rule_user_inputs)
     ctx.include("C02.9", "prerequisite shared with C03.1: the cached reports of a definition (including the error of a failed lifting) are drained after they were produced and written unconditionally - an early return before the write drops them silently", c03.rule_drain)
